@@ -776,7 +776,7 @@ def job_scenarios(job, scratch):
             out["faults_fired"][kind] = out["faults_fired"].get(kind, 0) + 1
         for k, val in res["notes"].items():
             out["notes"][k] = out["notes"].get(k, 0) + val
-        out["results"].append({"name": sc.get("name"), "outcomes": res["outcomes"],
+        out["results"].append({"name": sc.get("name"), "index": i, "outcomes": res["outcomes"],
                                "violation": res["violation"]})
         if res["violation"] and not job.get("keep_going"):
             if job.get("shrink", True):
@@ -826,19 +826,41 @@ QUICK_CFGS = ["hid-amber", "ajj-parse-secondary", "qbs-ligand", "hid-propka", "b
               "hid-clean", "a1p-assign-only", "ajj-net"]
 
 
-def trigger_scenarios():
+def _perturbable_charge(cfg):
+    """(line prefix 'RES\\tCA\\t<charge>', charge) for a residue type that occurs exactly
+    once in cfg's structure and has a CA entry in the user force field."""
+    text = corpus.structure_text(cfg)
+    names = [g["resname"] for g in corpus.polymer_groups(corpus.residue_groups(text.splitlines()))]
+    ff = corpus.load(cfg["files"]["userff"])
+    for res in sorted(set(names), key=lambda r: (names.count(r), r)):
+        for line in ff.splitlines():
+            w = line.split("\t")
+            if len(w) >= 4 and w[0] == res and w[1] == "CA":
+                return "\t".join(w[:3]), float(w[2])
+    raise RuntimeError("no perturbable residue")
+
+
+def trigger_scenarios(quick=False):
     """Failure causes the property names; each must be loud and leave the path alone.
-    Every entry is a complete explicit scenario."""
+    Every entry is a complete explicit scenario.  Thorough: every trigger x 3 pre-states
+    x 2 entry points; quick: two of those six combinations per trigger, rotating."""
     base = {"item": "cterm_hid.pdb"}
     amber = ["--ff=AMBER"]
     T = []
+    count = [0]
 
     def t(name, cfg, note=""):
-        for pre in ("absent", "sentinel", {"run": CFGS["hid-amber"]}):
-            for entry in ("run_pdb2pqr", "cli"):
-                T.append({"tag": "trigger", "name": name, "pre": pre,
-                          "runs": [{"cfg": cfg, "entry": entry, "expect": "fail",
-                                    "want_ref": False}]})
+        pres = ("absent", "sentinel", {"run": CFGS["hid-amber"]})
+        entries = ("run_pdb2pqr", "cli")
+        k = count[0]
+        count[0] += 1
+        combos = [(p, e) for p in range(3) for e in range(2)]
+        if quick:
+            combos = [(k % 3, k % 2), ((k + 1) % 3, (k + 1) % 2)]
+        for pi, ei in combos:
+            T.append({"tag": "trigger", "name": name, "pre": pres[pi],
+                      "runs": [{"cfg": cfg, "entry": entries[ei], "expect": "fail",
+                                "want_ref": False}]})
 
     # unreadable or empty input
     for kind in ("empty", "header", "html", "binary"):
@@ -878,14 +900,48 @@ def trigger_scenarios():
                                        file_content={"usernames": {"kind": "html"}}))
     t("malformed-usernames-truncated", dict(CFGS["bx8-userff"],
                                             file_content={"usernames": {"kind": "short", "at": 700}}))
-    # non-integral total charge
-    t("nonintegral-charge-userff",
-      dict(CFGS["bx8-userff"], file_content={"userff": {
-          "kind": "replace", "old": "ALA\tCA\t0.033700", "new": "ALA\tCA\t0.333700"}},
-          item="cterm_hid.pdb", window=None))
-    t("nonintegral-charge-userff-gly",
-      dict(CFGS["bx8-userff"], file_content={"userff": {
-          "kind": "replace", "old": "GLY\tCA\t", "new": "GLY\tCA\t0.4"}}))
+    # non-integral total charge: one charge of a residue type that occurs exactly once in
+    # the structure is shifted in the user force field (the file stays well-formed)
+    U = CFGS["bx8-userff"]
+    old_line, charge = _perturbable_charge(U)
+    for delta in (0.01, 0.05, 0.2, 0.5, -0.3):
+        t(f"nonintegral-charge-userff:{delta:+}",
+          dict(U, file_content={"userff": {"kind": "replace", "old": old_line,
+                                           "new": old_line.rsplit("\t", 1)[0] + f"\t{charge + delta:.6f}"}}))
+    for nm, extra, more in (
+            ("noopt-nodebump", ["--noopt", "--nodebump"], {}),
+            ("keepchain-whitespace-dropwater", ["--keep-chain", "--whitespace", "--drop-water"], {}),
+            ("propka", ["--titration-state-method=propka", "--with-ph=7"], {}),
+            ("secondary-outputs", ["--pdb-output={pdbout}", "--apbs-input={apbsout}"], {}),
+            ("ligand", ["--ligand={ligand}"],
+             {"files": dict(U["files"], ligand="ethanol.mol2"), "lig_het": "ethanol.mol2"})):
+        t(f"nonintegral-charge-userff:+0.2:{nm}",
+          dict(U, argv=U["argv"] + extra, file_content={"userff": {
+              "kind": "replace", "old": old_line,
+              "new": old_line.rsplit("\t", 1)[0] + f"\t{charge + 0.2:.6f}"}}, **more))
+    # the same on a highly charged structure (1AJJ, net charge -5) with small but real
+    # deviations (2-4x the documented 1e-3 tolerance; residue charges carry 4 decimals)
+    U5 = dict(U, item="1AJJ.pdb", window=None)
+    U5.pop("window")
+    old5, charge5 = _perturbable_charge(U5)
+    for delta in (0.003, 0.002, -0.004, 0.03):
+        t(f"nonintegral-charge-userff-net-5:{delta:+}",
+          dict(U5, file_content={"userff": {"kind": "replace", "old": old5,
+                                            "new": old5.rsplit("\t", 1)[0] + f"\t{charge5 + delta:.6f}"}}))
+    t("userff-garbled-number", dict(U, file_content={"userff": {
+        "kind": "replace", "old": old_line, "new": old_line.rsplit("\t", 1)[0] + "\t-0.0x52"}}))
+    t("usernames-garbled-tag", dict(U, file_content={"usernames": {
+        "kind": "replace", "old": "<residue>", "new": "<residue"}}))
+    # out-of-range / incompatible options, more corners
+    for ph in ("14.5", "14.01", "-0.5"):
+        t(f"ph-{ph}", dict(base, argv=["--ff=AMBER", f"--with-ph={ph}"]))
+    t("ph-15-propka", dict(base, argv=["--ff=AMBER", "--titration-state-method=propka",
+                                       "--with-ph=15"]))
+    t("neutraln-with-tyl06", dict(base, argv=["--ff=TYL06", "--neutraln"]))
+    t("neutralc-with-swanson", dict(base, argv=["--ff=SWANSON", "--neutralc"]))
+    t("neutraln-neutralc-with-peoepb", dict(base, argv=["--ff=PEOEPB", "--neutraln", "--neutralc"]))
+    t("missing-ligand-file-with-clean", dict(base, argv=["--clean", "--ligand={ligand}"],
+                                             files={"ligand": None}))
     # structure too incomplete to repair
     t("no-backbone", dict(base, damage=[[i, "drop_atom:CA"] for i in range(14)]
                           + [[i, "drop_atom:N"] for i in range(14)]
@@ -938,7 +994,7 @@ def main(tier, seed):
                          "cfg_name": name, "seed": seed * 1_000_003 + ci, "tier": tier,
                          "slice": [s, nslices],
                          "prev_cfg": CFGS["hid-amber"] if name != "hid-amber" else CFGS["hid-clean"]})
-    trig = trigger_scenarios()
+    trig = trigger_scenarios(quick)
     chunk = 12
     tjobs = [{"id": f"trig#{i // chunk}", "kind": "c12.scenarios", "keep_going": True,
               "scenarios": trig[i:i + chunk]} for i in range(0, len(trig), chunk)]
@@ -985,6 +1041,7 @@ def main(tier, seed):
             if r.get("violation"):
                 v = dict(r["violation"])
                 v["name"] = r["name"]
+                v["_scenario_ref"] = (msg["id"], r["index"])
                 found.append((msg["id"], v))
 
     with driver.ServerPool([("w", {"PYTHONHASHSEED": "0"}, 16)], job_timeout=1500) as pool:
@@ -1000,7 +1057,10 @@ def main(tier, seed):
             sc = v.get("scenario")
             if sc is None:
                 # trigger scenario: find it by name and let a job minimise it
-                cand = [s for s in trig + nets if s.get("name") == v.get("name")]
+                jmap = {j["id"]: j["scenarios"] for j in tjobs + njobs}
+                ref_ = v.pop("_scenario_ref", None)
+                cand = [jmap[ref_[0]][ref_[1]]] if ref_ and ref_[0] in jmap else [
+                    s for s in trigger_scenarios() + nets if s.get("name") == v.get("name")]
                 r, _ = pool.run({"w": [{"id": f"min{n}", "kind": "c12.scenarios",
                                         "scenarios": cand[:1]}]})
                 m = r["w"].get(f"min{n}", {})
@@ -1010,6 +1070,7 @@ def main(tier, seed):
                     sc = vv.get("scenario")
                 else:
                     sc = cand[0] if cand else None
+            v.pop("_scenario_ref", None)
             path = evidence.write_replay("C12", seed, {
                 "class": key, "kind": v["kind"], "scenario": sc, "violation": {
                     k: v[k] for k in v if k != "scenario"}}, suffix=f"-{n}")
